@@ -108,14 +108,27 @@ func verifH_C06_join() {
 	n1, n2, n3 := verifParam("n1", 2), verifParam("n2", 2), verifParam("n3", 1)
 	chain := verifParam("chain", 1)
 	selfJoin := verifParam("self", 0) == 1
-	mk := func(name string, n int) *verifStubTable {
-		t := &verifStubTable{cols: []string{"id", "v"}}
+	// table widths (number of columns, the first is the join key "id")
+	w1, w2 := verifParam("w1", 2), verifParam("w2", 2)
+	mkw := func(name string, n, w int) *verifStubTable {
+		t := &verifStubTable{cols: []string{"id"}}
+		for c := 1; c < w; c++ {
+			t.cols = append(t.cols, string(rune('u'+c)))
+		}
 		for i := 0; i < n; i++ {
-			t.rows = append(t.rows, []interface{}{int64(verifI32(name + "id")), int64(verifI32(name + "v"))})
+			row := []interface{}{int64(verifI32(name + "id"))}
+			for c := 1; c < w; c++ {
+				row = append(row, int64(verifI32(name+"v")))
+			}
+			t.rows = append(t.rows, row)
 		}
 		return t
 	}
-	t1, t2, t3 := mk("t1", n1), mk("t2", n2), mk("t3", n3)
+	mk := func(name string, n int) *verifStubTable { return mkw(name, n, 2) }
+	t1, t2, t3 := mkw("t1", n1, w1), mkw("t2", n2, w2), mk("t3", n3)
+	if selfJoin {
+		w2 = w1
+	}
 	rm := &verifRM{tables: map[string]*verifStubTable{"t1": t1, "t2": t2, "t3": t3}}
 	flag := func(t *verifStubTable) []verifFlagRow {
 		var out []verifFlagRow
@@ -139,21 +152,21 @@ func verifH_C06_join() {
 		ltn.CorrelationName, rtn.CorrelationName = "a", "b"
 	}
 	jt1 := verifJoinTypes[verifChoice("jt1", 3)]
-	on1, ref1 := verifOnCond("on1", verifChoice("onform1", 5), sql.ColumnReference{Qualifier: lid, ColumnName: "id"}, sql.ColumnReference{Qualifier: rid, ColumnName: "id"}, 0, 2)
+	on1, ref1 := verifOnCond("on1", verifChoice("onform1", 5), sql.ColumnReference{Qualifier: lid, ColumnName: "id"}, sql.ColumnReference{Qualifier: rid, ColumnName: "id"}, 0, w1)
 	var from sql.TableReference = sql.QualifiedJoin{LHS: ltn, JoinType: jt1, RHS: rtn, JoinCondition: on1}
-	ref := verifRefJoin(flag(t1), flag(rtab), 2, 2, jt1, ref1)
-	width := 4
+	ref := verifRefJoin(flag(t1), flag(rtab), w1, w2, jt1, ref1)
+	width := w1 + w2
 	if chain == 2 {
 		jt2 := verifJoinTypes[verifChoice("jt2", 3)]
 		// the second condition uses a column that the first join never pads
 		lq, li := sql.ColumnReference{Qualifier: lid, ColumnName: "id"}, 0
 		if jt1 == sql.RIGHT_JOIN {
-			lq, li = sql.ColumnReference{Qualifier: rid, ColumnName: "id"}, 2
+			lq, li = sql.ColumnReference{Qualifier: rid, ColumnName: "id"}, w1
 		}
-		on2, ref2 := verifOnCond("on2", verifChoice("onform2", 2), lq, sql.ColumnReference{Qualifier: "t3", ColumnName: "id"}, li, 4)
+		on2, ref2 := verifOnCond("on2", verifChoice("onform2", 2), lq, sql.ColumnReference{Qualifier: "t3", ColumnName: "id"}, li, width)
 		from = sql.QualifiedJoin{LHS: from, JoinType: jt2, RHS: sql.TableName{Name: "t3"}, JoinCondition: on2}
-		ref = verifRefJoin(ref, flag(t3), 4, 2, jt2, ref2)
-		width = 6
+		ref = verifRefJoin(ref, flag(t3), width, 2, jt2, ref2)
+		width += 2
 	}
 	verifTag("jt1", fmt.Sprint(jt1))
 	q := sql.Select{
@@ -167,11 +180,29 @@ func verifH_C06_join() {
 	}
 	verifAssert(len(fields) == width, "width")
 	// columns are addressable through the alias when there is one, the name otherwise
-	verifAssert(fields[0].TableID == lid && fields[2].TableID == rid, "table-ids")
+	verifAssert(fields[0].TableID == lid && fields[w1].TableID == rid, "table-ids")
 	for _, r := range rows {
 		verifAssert(len(r.Vals) == width, "row-width")
 	}
 	verifMultisetEq(rows, ref, "")
+	if chain == 1 {
+		// the same join, projecting the last column of each side through its qualifier
+		q2 := q
+		lastL, lastR := t1.cols[w1-1], rtab.cols[w2-1]
+		q2.SelectList = sql.SelectList{
+			{ValueExpressionPrimary: sql.ColumnReference{Qualifier: rid, ColumnName: lastR}},
+			{ValueExpressionPrimary: sql.ColumnReference{Qualifier: lid, ColumnName: lastL}},
+		}
+		prow, _, err := EvaluateSelect(q2, rm)
+		verifAssert(err == nil, "projection-ok")
+		if err == nil {
+			var pref []verifFlagRow
+			for _, f := range ref {
+				pref = append(pref, verifFlagRow{[]interface{}{f.vals[w1+w2-1], f.vals[w1-1]}, f.in})
+			}
+			verifMultisetEq(prow, pref, "projected/")
+		}
+	}
 	verifReach("end")
 }
 
